@@ -244,6 +244,39 @@ func (p *c10) roundTrip(x *res, item val.Item, ctx *runner.Ctx) {
 			{"scan", adapt.Op{Kind: adapt.OpScan, Table: spec.Name}},
 			{"batchget", adapt.Op{Kind: adapt.OpBatchGet, Gets: []adapt.BatchEntry{{Table: spec.Name, Del: key}}}},
 		}
+		// the same four reads with a ProjectionExpression that names EVERY top-level attribute of the item, each through
+		// a placeholder (#a, #aa, #aaa ...: every placeholder is a prefix of the next one, the attributes are unrelated):
+		// whether or not a projection is applied, all of the item is asked for
+		pnames := map[string]string{}
+		plist := []string{}
+		tops := []string{}
+		for k := range it {
+			tops = append(tops, k)
+		}
+		sort.Strings(tops)
+		for i, k := range tops {
+			ph := "#" + strings.Repeat("a", i+1)
+			pnames[ph] = k
+			plist = append(plist, ph)
+		}
+		proj := strings.Join(plist, ", ")
+		qp := queryOp(spec.Name, "", keyCondEq("h", ":h"), nil, val.Item{":h": val.Str("k")}, false, rrCanon)
+		qp.Proj = proj
+		if qp.Names == nil {
+			qp.Names = map[string]string{}
+		}
+		for k, v := range pnames {
+			qp.Names[k] = v
+		}
+		reads = append(reads, []struct {
+			name string
+			op   adapt.Op
+		}{
+			{"get", adapt.Op{Kind: adapt.OpGet, Table: spec.Name, Key: key, Proj: proj, Names: pnames}},
+			{"query", qp},
+			{"scan", adapt.Op{Kind: adapt.OpScan, Table: spec.Name, Proj: proj, Names: pnames}},
+			{"batchget", adapt.Op{Kind: adapt.OpBatchGet, Gets: []adapt.BatchEntry{{Table: spec.Name, Del: key}}, Proj: proj, Names: pnames}},
+		}...)
 		for _, rd := range reads {
 			got := cl.Do(rd.op)
 			x.r.Evals++
